@@ -2,7 +2,9 @@
    crypto_aes_key_free_aesni, crypto_aes_key_free (software tail) and crypto_aesctr_free, exactly
    one block is handed to the allocator and every byte of it is zero, whatever the object held. *)
 From Coq Require Import NArith List Bool Lia.
-From LCP Require Import Gen.Repo_aes Crypto.AesWipe Crypto.AesRepo.
+From LCP Require Import Gen.Repo_aes.
+From LCP Require Import Crypto.AesWipe.
+From LCP Require Import Crypto.AesRepo.
 Import ListNotations.
 Local Open Scope N_scope.
 
